@@ -25,13 +25,19 @@ Definition of_term (t : term) : lterm :=
   match t with EndedNormally => LNormal | Raised e => LRaised (XLoop e) end.
 
 (* the resources shutdown() releases, and the connection's StreamWriter *)
-Record sstate := mk_s { stop_set : bool; pool_down : bool; srv_closed : bool; wr_closed : bool }.
-Definition fresh : sstate := mk_s false false false false.
+(* jobs_done: the @thread handlers that were queued or running in the pool when the loop ended have
+   run to completion (every complete frame received before the cut is handled, also by a threaded
+   handler that had not started yet) *)
+Record sstate := mk_s { stop_set : bool; pool_down : bool; srv_closed : bool; wr_closed : bool;
+                        jobs_done : bool }.
+Definition fresh : sstate := mk_s false false false false false.
 
-(* JsonRPCServer.shutdown *)
-Definition shutdown (s : sstate) : sstate := mk_s true true true (wr_closed s).
-Definition close_writer (s : sstate) : sstate := mk_s (stop_set s) (pool_down s) (srv_closed s) true.
-Definition released (s : sstate) : bool := stop_set s && pool_down s && srv_closed s.
+(* JsonRPCServer.shutdown: self._thread_pool.shutdown() is ThreadPoolExecutor.shutdown(wait=True,
+   cancel_futures=False): it WAITS for the pool, and work items still queued are run, not cancelled *)
+Definition shutdown (s : sstate) : sstate := mk_s true true true (wr_closed s) true.
+Definition close_writer (s : sstate) : sstate :=
+  mk_s (stop_set s) (pool_down s) (srv_closed s) true (jobs_done s).
+Definition released (s : sstate) : bool := stop_set s && pool_down s && srv_closed s && jobs_done s.
 
 Inductive wrapper :=
 | StartIoAsync | StartIoSync | TcpCallback | ClientTask
@@ -60,7 +66,7 @@ Definition wrapper_run (w : wrapper) (l : lterm) : sstate * ret :=
   | ClientTask =>
     (* stop(): self._stop_event.set(); awaiting the gathered tasks re-raises the task's exception;
        the client owns no pool / asyncio server: those are vacuously released *)
-    (mk_s true true true false, propagate l)
+    (mk_s true true true false true, propagate l)
   | TcpCallbackPinned =>
     (* await run_async(..); self.shutdown()   -- no finally, writer never closed *)
     (match l with LNormal => shutdown fresh | LRaised _ => fresh end, propagate l)
